@@ -947,6 +947,8 @@ let props_of_step (label : sx) (pre : istate) (crashed : bool) : string =
   let base = match lst label with
     | A "rec" :: A "tx" :: i :: _ ->
       (* the transaction controller next to a failed predecessor: C11's "later transactions still proceed" *)
+      (* a rollback transaction: its proposals are exactly the targets of the change it names (C06) *)
+      (match List.assoc_opt (inum i) (txs_of pre.w) with Some { t_details = TRollback _; _ } -> [ "C06" ] | _ -> []) @
       (match List.assoc_opt (inum i - 1) (txs_of pre.w) with
        | Some tp when tp.t_state = TFailed -> [ "C01"; "C02"; "C05"; "C09"; "C11" ]
        | _ -> [ "C01"; "C02"; "C05"; "C09" ])
